@@ -4,9 +4,9 @@ package interp
 
 import (
 	"fmt"
-	"os"
 	"go/token"
 	"go/types"
+	"os"
 	"runtime"
 	"sort"
 	"strings"
@@ -19,8 +19,8 @@ import (
 
 // Worker owns one interpreter instance and one set of solver processes.
 type Worker struct {
-	i *interpreter
-	S *smt.Solver
+	i          *interpreter
+	S          *smt.Solver
 	InitPoison int
 	InitTime   time.Duration
 }
